@@ -24,13 +24,14 @@ COREDATA = 'mesonbuild/coredata.py'
 MSETUP = 'mesonbuild/msetup.py'
 MCONF = 'mesonbuild/mconf.py'
 IBASE = 'mesonbuild/interpreterbase/interpreterbase.py'
+CMDLINE = 'mesonbuild/cmdline.py'
 
 EXPLANATION = (
     'Decides structural clauses of C08: R1 the decision table of OptionStore.set_from_configure_command (-D sets through '
     'set_user_option and accumulates the dirty flag; -U drops an augment; -U without augment raises for an unknown key, else '
     're-yields to the parent) and CoreData forwards options.cmd_line_options and returns the flag; R2a on every path of '
     'update_project_options a new key is added, a redeclared key (type or choices differ) ends with the NEW object stored and the '
-    'old value carried over only through a guarded set_value, an unchanged key is untouched; R2b keys are removed exactly when '
+    'old value carried over only through a guarded set_value (also on the exception edge out of the carry-over), an unchanged key is untouched; R1b update_cmd_line_file records every value that is not None as str(value) and erases exactly when the value is None (same canonical atom as R1); R2c every comparison of choices_are_different has the same projection on both sides, one side per parameter, and covers choices/min_value/max_value for every option class declaring them; R2b keys are removed exactly when '
     'undeclared & project option & of this subproject; R3a every persistent writer and every may-raise statement after the '
     'coredata dump in MesonApp._generate is guarded by the handler that restores coredata.dat.prev/unlinks and re-raises '
     '(suffix agrees with coredata.save); R3c no statement that may raise follows a cmd_line.txt write inside that try (the handler restores coredata only); R3b in mconf.run_impl cmd_line.txt/coredata are written only after '
@@ -432,6 +433,74 @@ def r1(ctx: RuleCtx) -> None:
 
 
 # ---------------------------------------------------------------------------
+# C08.R1b  cmd_line.txt records -D and erases -U with the same discriminator as the option store
+
+def r1b(ctx: RuleCtx) -> None:
+    mod = ctx.repo.module(CMDLINE)
+    qn = 'update_cmd_line_file'
+    fn = mod.func(qn)
+    params = _pos_params(fn)
+    if len(params) != 2:
+        raise Undecided(f'{qn}: expected (build_dir, options)')
+    loops = [s_ for s_ in fn.body if isinstance(s_, ast.For) and _items_loop(s_, f'{params[1]}.cmd_line_options') is not None]
+    if len(loops) != 1:
+        raise Undecided(f'{qn}: expected one loop over {params[1]}.cmd_line_options.items()')
+    loop = loops[0]
+    k, v, _ = _items_loop(loop)  # type: ignore[misc]
+    cfgs = [st.targets[0].id for st in fn.body if isinstance(st, ast.Assign) and len(st.targets) == 1 and isinstance(st.targets[0], ast.Name)
+            and isinstance(st.value, ast.Call) and call_method(st.value) == 'CmdLineFileParser']
+    if len(cfgs) != 1:
+        raise Undecided(f'{qn}: the parsed cmd_line.txt is not held in one variable')
+    body = _renamed(loop.body, {k: 'KEY', v: 'VAL', cfgs[0]: 'CFG'})
+    tab = _ptable(body, _r1_eff, name=qn + ':loop')
+    rec = "CFG['options']"
+    sem = {Atom('is', ('VAL', 'None')): 'unset', Atom('truth', ('VAL',)): 'truthy',
+           Atom('in', ('str(KEY)', rec)): 'recorded'}
+
+    def ref(w: T.Dict[str, bool]) -> T.Optional[str]:
+        if w['unset'] and w['truthy']:
+            return None          # None is falsy
+        if not w['unset']:
+            return 'record'
+        return 'erase' if w['recorded'] else 'nothing'
+
+    def judge(row: tables.Row, want: str) -> T.Optional[str]:
+        effs: T.List[str] = []
+        for e in row.effects:
+            effs.extend(x.strip() for x in e.split('; '))
+        acts = []
+        for e in effs:
+            if e == f'SET {rec}[str(KEY)] := str(VAL)':
+                acts.append('record')
+            elif e.startswith(f'SET {rec}[str(KEY)] := '):
+                acts.append(f'records `{e.split(" := ", 1)[1]}` instead of str(value)')
+            elif e == f'DEL {rec}[str(KEY)]':
+                acts.append('erase')
+            elif e in (f'CALL {rec}.pop(str(KEY), None)', f'CALL {rec}.pop(str(KEY), \'\')'):
+                acts.append('erase-if-recorded')
+            elif e.startswith('CALL mlog.'):
+                continue
+            else:
+                raise Undecided(f'{qn}: unknown effect `{e}`')
+        if row.outcome[0] not in ('fall', 'continue'):
+            acts.append(f'leaves the loop by {row.outcome[0]}')
+        okacts = {'record': [['record']], 'erase': [['erase'], ['erase-if-recorded']], 'nothing': [[], ['erase-if-recorded']]}[want]
+        if acts in okacts:
+            return None
+        return ('does [' + ', '.join(acts) + ']') if acts else 'does nothing'
+    _run_table(ctx, mod, qn, fn, tab, sem, ref, judge, list(sem))
+    ctx.floor(f'{qn}: rows', len(tab.rows), 2)
+    # the updated table is written back after the loop
+    cfg = CFG(fn)
+    it = [n for n in cfg.nodes if n.kind == 'iter' and n.ast is loop]
+    wr = cfg.nodes_with_call(lambda c: call_method(c) != 'read' and (cfgs[0] in {a.id for a in c.args if isinstance(a, ast.Name)}
+                                                                      or (isinstance(c.func, ast.Attribute) and norm(c.func.value) == cfgs[0] and c.func.attr == 'write')))
+    wr = [n for n in wr if n.ast is not loop and it and cfg.can_reach(it[0], n)]
+    ctx.require(bool(wr) and all(cfg.must_pass(i, cfg.exit_return, wr) for i in it), f'{qn}: the updated table is written back after the loop', mod, qn,
+                'write-back after the recording loop', 'after the recording loop the function can return without writing the updated table', loop)
+
+
+# ---------------------------------------------------------------------------
 # C08.R2a  update_project_options: typestate of self.options[KEY] (which declaration object is installed: OLD/NEW)
 # along every enumerated path of the first loop; locals are resolved to OLD/NEW by reaching definitions (aliases), the
 # conditions are canonical atoms, the effects are classified by statement shape.  Nothing is evaluated on input values.
@@ -468,7 +537,8 @@ _R2_SEM: T.Dict[Atom, str] = {
 }
 
 
-def _r2_walk(qn: str, body: T.List[ast.stmt], p: paths.Path, pm: T.Dict[ast.AST, T.Tuple[ast.AST, str]]) -> _R2Path:
+def _r2_walk(qn: str, body: T.List[ast.stmt], p: paths.Path, pm: T.Dict[ast.AST, T.Tuple[ast.AST, str]],
+             handlers: T.Dict[int, ast.ExceptHandler]) -> _R2Path:
     out = _R2Path()
     env: T.Dict[str, ast.AST] = {}
 
@@ -477,6 +547,10 @@ def _r2_walk(qn: str, body: T.List[ast.stmt], p: paths.Path, pm: T.Dict[ast.AST,
 
     for ev in p.events:
         if ev.kind == 'cond':
+            if isinstance(ev.node, ast.Call) and isinstance(ev.node.func, ast.Name) and ev.node.func.id == '__exc__':
+                if ev.val:      # exception edge out of this statement of a try body into its handler
+                    out.handler = handlers[ev.node.args[0].value]  # type: ignore[attr-defined]
+                continue
             a, v = tables.canon(sym(ev.node), ev.val)
             k = _R2_SEM.get(a)
             if k is None:
@@ -542,6 +616,45 @@ def _r2_walk(qn: str, body: T.List[ast.stmt], p: paths.Path, pm: T.Dict[ast.AST,
     return out
 
 
+def _lower_trys(qn: str, stmts: T.List[ast.stmt], handlers: T.Dict[int, ast.ExceptHandler]) -> T.List[ast.stmt]:
+    """Make the exception edges of `try` bodies explicit for the path enumerator: `try: s1; s2 except H: hb` becomes
+    `if __exc__(n): hb  else: s1; if __exc__(n+1): hb else: s2` where only statements containing a call are exception
+    points (a subscript store cannot raise the handled MesonException); a statement that raises has no effect.
+    The statement objects are reused, so parent-map queries on the original body stay valid."""
+    out: T.List[ast.stmt] = []
+    for st in stmts:
+        if isinstance(st, ast.Try):
+            if st.finalbody or st.orelse or len(st.handlers) != 1:
+                raise Undecided(f'{qn}: try with finally/else or several handlers in the declaration loop')
+            h = st.handlers[0]
+            if not _covers(h, {'MesonException', 'Exception', 'BaseException'}):
+                raise Undecided(f'{qn}: handler for {norm(h.type)}')
+            if any(not isinstance(b, (ast.Expr, ast.Assign, ast.AnnAssign, ast.AugAssign, ast.Pass)) for b in st.body):
+                raise Undecided(f'{qn}: compound statement inside a try of the declaration loop')
+            hb = _lower_trys(qn, h.body, handlers)
+
+            def chain(i: int) -> T.List[ast.stmt]:
+                if i == len(st.body):
+                    return []
+                b = st.body[i]
+                rest = [b] + chain(i + 1)
+                if not any(isinstance(c, ast.Call) for c in ast.walk(b)):
+                    return rest
+                n = len(handlers)
+                handlers[n] = h
+                test = ast.Call(func=ast.Name(id='__exc__', ctx=ast.Load()), args=[ast.Constant(value=n)], keywords=[])
+                node = ast.If(test=test, body=list(hb) or [ast.Pass()], orelse=rest)
+                return [ast.fix_missing_locations(ast.copy_location(node, b))]
+            out.extend(chain(0))
+        elif isinstance(st, ast.If):
+            out.append(ast.copy_location(ast.If(test=st.test, body=_lower_trys(qn, st.body, handlers), orelse=_lower_trys(qn, st.orelse, handlers)), st))
+        elif isinstance(st, (ast.For, ast.While, ast.With)):
+            raise Undecided(f'{qn}: nested loop/with in the declaration loop')
+        else:
+            out.append(st)
+    return out
+
+
 def _guarded_carry(pm: T.Dict[ast.AST, T.Tuple[ast.AST, str]], st: ast.AST) -> T.Optional[ast.Try]:
     for t, field in _contexts(pm, st, (ast.Try,)):
         if field == 'body' and any(_covers(h, {'MesonException', 'Exception', 'BaseException'}) for h in t.handlers):  # type: ignore[attr-defined]
@@ -564,6 +677,10 @@ def _r2_judge(pm: T.Dict[ast.AST, T.Tuple[ast.AST, str]], rp: _R2Path, want: str
             return None
         return (f'changes the stored option ({whats}) although the declaration is unchanged', first, norm(first))  # type: ignore[return-value]
     assert want == 'replace'
+    if rp.stored != 'NEW' and rp.handler is not None:
+        return ('is the failure path of the carry-over (the old value is rejected) and leaves the '
+                f'{"old declaration object" if rp.stored == "OLD" else rp.stored} stored: the new declaration is installed only when the old value is still valid',
+                rp.handler, f'failure path of the carry-over leaves {rp.stored} stored')
     if rp.stored != 'NEW':
         culprit = next((n for w, n in rp.acts if w.startswith('set OLD')), first)
         detail = f'; instead it does {whats}' if whats else ''
@@ -571,7 +688,7 @@ def _r2_judge(pm: T.Dict[ast.AST, T.Tuple[ast.AST, str]], rp: _R2Path, want: str
                 f'(the new declaration is never installed{detail})', culprit, norm(culprit) if culprit is not None else 'redeclared option not replaced')  # type: ignore[return-value]
     if rp.handler is not None:
         # exceptional completion of the carry-over: the new object with its own default stays
-        extra = [w for w in whats if w != 'store NEW']
+        extra = [w for w in whats if w not in ('store NEW', 'set NEW := OLD.value')]
         if extra:
             return (f'on the failure path also does {extra}', rp.acts[-1][1], norm(rp.acts[-1][1]))
         return None
@@ -601,15 +718,10 @@ def r2a(ctx: RuleCtx) -> None:
     k, v, _ = _items_loop(loops[0], params[0])  # type: ignore[misc]
     body = _renamed(loops[0].body, {k: 'KEY', v: 'NEW', params[0]: 'ARG1', params[1]: 'ARG2'})
     pm = _parent_map(ast.Module(body=body, type_ignores=[]))
-    # handler paths are only meaningful when the try body is exactly the carry-over
-    for t in (n for st in body for n in ast.walk(st) if isinstance(n, ast.Try)):
-        if len(t.body) != 1 or t.finalbody or t.orelse:
-            raise Undecided(f'{qn}: try block with more than the carry-over statement')
-        for h in t.handlers:
-            if not _covers(h, {'MesonException', 'Exception', 'BaseException'}):
-                raise Undecided(f'{qn}: handler for {norm(h.type)}')
-    ps = paths.enumerate_paths(body, handlers=True, pure={'choices_are_different', 'get_value_object'})
-    walked = [_r2_walk(qn, body, p, pm) for p in ps]
+    handlers: T.Dict[int, ast.ExceptHandler] = {}
+    lowered = _lower_trys(qn, body, handlers)
+    ps = paths.enumerate_paths(lowered, pure={'choices_are_different', 'get_value_object'})
+    walked = [_r2_walk(qn, body, p, pm, handlers) for p in ps]
     walked = [w for w in walked if '<infeasible>' not in w.view]
     ctx.floor(f'{qn}: paths of the declaration loop', len(walked), 5)
 
@@ -725,6 +837,92 @@ def r2b(ctx: RuleCtx) -> None:
         (isinstance(n.ast, ast.Expr) and norm(n.ast.value).startswith(f'self.options.pop({rp[0]}')))]
     ctx.require(bool(dels) and cfg.must_pass(cfg.entry, cfg.exit_return, dels), 'OptionStore.remove deletes self.options[key] on every normal path', mod,
                 'OptionStore.remove', 'del self.options[key]', 'OptionStore.remove can return without deleting self.options[key]', rfn)
+
+
+# ---------------------------------------------------------------------------
+# C08.R2c  choices_are_different: symmetric projections that cover the declaration fields of every option class
+
+DECL_FIELDS = ('choices', 'min_value', 'max_value')
+
+
+class _Proj(ast.NodeTransformer):
+    def __init__(self) -> None:
+        self.seen: T.Set[str] = set()
+
+    def visit_Name(self, n: ast.Name) -> ast.AST:
+        if n.id in ('ARG1', 'ARG2'):
+            self.seen.add(n.id)
+            return ast.Name(id='@', ctx=n.ctx)
+        return n
+
+
+def _cmp_terms(qn: str, e: ast.AST) -> T.List[ast.Compare]:
+    if isinstance(e, ast.BoolOp) and isinstance(e.op, ast.Or):
+        return [t for v in e.values for t in _cmp_terms(qn, v)]
+    if isinstance(e, ast.Constant) and e.value is False:
+        return []
+    if isinstance(e, ast.Compare) and len(e.ops) == 1 and isinstance(e.ops[0], ast.NotEq):
+        return [e]
+    if isinstance(e, ast.UnaryOp) and isinstance(e.op, ast.Not) and isinstance(e.operand, ast.Compare) and len(e.operand.ops) == 1 \
+            and isinstance(e.operand.ops[0], ast.Eq):
+        return [e.operand]
+    raise Undecided(f'{qn}: result is not a disjunction of inequalities: {short(e)}')
+
+
+def r2c(ctx: RuleCtx) -> None:
+    mod = ctx.repo.module(OPTIONS)
+    qn = 'choices_are_different'
+    fn = mod.func(qn)
+    if len(_pos_params(fn)) != 2:
+        raise Undecided(f'{qn}: expected two parameters')
+    tab = tables.extract(fn, name=qn)
+    for a in tab.atoms():
+        if not (a.kind == 'isinstance' and a.args[0] in ('ARG1', 'ARG2')):
+            raise Undecided(f'{qn}: condition outside the vocabulary: {a!r}')
+    # every comparison: same projection on both sides, one side from each parameter
+    row_proj: T.Dict[int, T.Set[str]] = {}
+    nterms = 0
+    for r in tab.rows:
+        if r.outcome[0] != 'return':
+            ctx.violation(mod, qn, ' '.join(str(x) for x in r.outcome), f'row `{r!r}` leaves by {r.outcome[0]}', _row_node(r, fn))
+            continue
+        projs: T.Set[str] = set()
+        for t in _cmp_terms(qn, ast.parse(r.outcome[1], mode='eval').body):
+            nterms += 1
+            pa, pb = _Proj(), _Proj()
+            ta, tb = norm(pa.visit(copy.deepcopy(t.left))), norm(pb.visit(copy.deepcopy(t.comparators[0])))
+            if len(pa.seen) != 1 or len(pb.seen) != 1 or pa.seen == pb.seen:
+                ctx.violation(mod, qn, norm(t), f'`{norm(t)}` does not compare the old declaration with the new one (sides read {sorted(pa.seen)} and '
+                              f'{sorted(pb.seen)}): a change of `{ta}` is not detected and the old declaration object stays stored', _row_node(r, fn))
+            elif ta != tb:
+                ctx.violation(mod, qn, norm(t), f'`{norm(t)}` compares different projections `{ta}` and `{tb}`', _row_node(r, fn))
+            else:
+                ctx.ok(f'{qn}: `{norm(t)}` compares `{ta}` of the old and the new declaration')
+                projs.add(ta)
+        row_proj[id(r)] = projs
+    # every option class: the row taken for it covers the declaration fields the class has
+    ncls = 0
+    for cname, cnode in mod.classes().items():
+        mro = ctx.repo.mro(mod, cnode)
+        names = {c.name for _, c in mro}
+        if 'UserOption' not in names or '.' in cname:
+            continue
+        fields = sorted({st.target.id for _, c in mro for st in c.body
+                         if isinstance(st, ast.AnnAssign) and isinstance(st.target, ast.Name) and st.target.id in DECL_FIELDS})
+        if not fields:
+            continue
+        ncls += 1
+        w = {a: any(t in names for t in a.args[1]) for a in tab.atoms()}
+        rows = tab.fire(w)
+        if len(rows) != 1:
+            raise Undecided(f'{qn}: {len(rows)} rows fire for class {cname}')
+        got = row_proj.get(id(rows[0]), set())
+        missing = [f for f in fields if f'@.{f}' not in got]
+        ctx.require(not missing, f'{qn}: for {cname} the comparison covers {fields}', mod, qn, f'{cname}: {", ".join(missing)} not compared',
+                    f'for option class {cname} (declaration fields {fields}) the row `{short(repr(rows[0]), 120)}` does not compare {missing}: '
+                    'an option-file edit of these is not noticed', _row_node(rows[0], fn))
+    ctx.floor(f'{qn}: option classes with declaration fields', ncls, 8)
+    ctx.floor(f'{qn}: distinct projections compared', len({x for ps_ in row_proj.values() for x in ps_}), len(DECL_FIELDS))
 
 
 # ---------------------------------------------------------------------------
@@ -1517,8 +1715,10 @@ def r5c(ctx: RuleCtx) -> None:
 
 RULES = [
     Rule('C08.R1', '-D/-U decision table of set_from_configure_command', r1),
+    Rule('C08.R1b', 'cmd_line.txt: -D recorded as str(value), -U (value is None) erases', r1b),
     Rule('C08.R2a', 'update_project_options: new / redeclared / unchanged keys', r2a),
     Rule('C08.R2b', 'update_project_options: undeclared keys of this subproject are removed', r2b),
+    Rule('C08.R2c', 'choices_are_different: symmetric projections covering choices/min_value/max_value', r2c),
     Rule('C08.R3a', 'setup: writers after the coredata dump are guarded by the restoring handler', r3a),
     Rule('C08.R3b', 'configure: persisted only after the options were applied', r3b),
     Rule('C08.R3c', 'setup: cmd_line.txt is not left rewritten by a failing configuration', r3c),
